@@ -276,7 +276,11 @@ Theorem compressor_constant_level_R :
       run_frames (estep consts_R (ECompressor lg pw thr ratio att rel mk_db mix)) (SComp (el0, er0)) (map x (seq 0 N)) =
       (SComp (follower (overshoot thr Ll) (follower_speed att rel (overshoot thr Ll) el0) el0 N,
               follower (overshoot thr Lr) (follower_speed att rel (overshoot thr Lr) er0) er0 N),
-       map (comp_out lg pw thr ratio att rel mk_db mix Ll Lr el0 er0 x) (seq 0 N)).
+       map (fun n =>
+              let gl := follower (overshoot thr Ll) (follower_speed att rel (overshoot thr Ll) el0) el0 (S n) * (1 / ratio - 1) in
+              let gr := follower (overshoot thr Lr) (follower_speed att rel (overshoot thr Lr) er0) er0 (S n) * (1 / ratio - 1) in
+              blend (pw (gl / 20) * fst (x n) * pw (mk_db / 20), pw (gr / 20) * snd (x n) * pw (mk_db / 20)) (x n) mix)
+           (seq 0 N)).
 Proof. exact compressor_constant_level. Qed.
 
 (** ... which converges to the static curve (level - threshold) (1/ratio - 1) dB, output level
